@@ -102,6 +102,11 @@ pub struct Bank {
     fed: u64,
 }
 
+thread_local! {
+    /// arrival time (virtual clock, hook H1) given to hostile frames; probes always arrive at T0
+    static ARRIVAL_MS: std::cell::Cell<u64> = const { std::cell::Cell::new(scenario::T0) };
+}
+
 impl Bank {
     pub fn fresh() -> Bank {
         // loading the bundled database costs ~50 s under Miri: matching is off there
@@ -128,7 +133,7 @@ impl Bank {
         let mut mask = 0u32;
         for (i, (name, r)) in self.runners.iter_mut().enumerate() {
             stash(name, frame);
-            let res = r.feed(scenario::T0, frame);
+            let res = r.feed(ARRIVAL_MS.with(|a| a.get()), frame);
             unstash();
             match res {
                 Err(p) => return Err((name.to_string(), p)),
@@ -580,6 +585,89 @@ fn text_targets(ctx: &mut Ctx, text: &str) {
     });
 }
 
+/// Database text that LOADS is then used: analyzers are built on it and given traffic that
+/// conforms to each of its signatures (so that every index key of every table is looked up) plus
+/// a probe; whatever the text was, analysis returns a result or an error value.
+fn db_then_traffic(ctx: &mut Ctx, r: &mut Rng, text: &str, what: &str) {
+    use crate::props::c13;
+    use std::str::FromStr;
+    let db = match guard(|| huginn_net_db::Database::from_str(text)) {
+        Ok(Ok(d)) => std::sync::Arc::new(d),
+        Ok(Err(_)) => {
+            ctx.class("text/database-variant-rejected");
+            return;
+        }
+        Err(p) => {
+            ctx.judge(false, &[], "panic in a text entry point", || json!({"entry_point": "Database::from_str", "panic": p, "input": what}));
+            return;
+        }
+    };
+    ctx.class("text/database-variant-loaded");
+    let Ok(tcp) = huginn_net_tcp::HuginnNetTcp::new(Some(db.clone()), 64) else { return };
+    let Ok(mut uni) = huginn_net::HuginnNet::new(Some(&db), 64, None) else { return };
+    let mut fed = 0u64;
+    let mut idx = 0u64;
+    for (request, entries) in [(true, &db.tcp_request.entries), (false, &db.tcp_response.entries)] {
+        for (_label, sigs) in entries.iter() {
+            for sig in sigs {
+                idx += 1;
+                for v in 0..2u64 {
+                    let v4 = match sig.version {
+                        huginn_net_db::tcp::IpVersion::V4 => true,
+                        huginn_net_db::tcp::IpVersion::V6 => false,
+                        _ => v == 0,
+                    };
+                    let ep = Endpoints::v4([10, 70, (idx >> 8) as u8, idx as u8], 1025 + (idx % 60000) as u16, [198, 51, 100, 70], 80);
+                    let Some(b) = c13::build_tcp(sig, request, v4, (v * 7) as u8, r, &ep) else { continue };
+                    let mut tracker = ttl_cache::TtlCache::new(16);
+                    let res = guard(|| {
+                        let _ = tcp.verif_process_packet(&b.frame, &mut tracker);
+                        let _ = uni.analyze_tcp(&b.frame);
+                    });
+                    fed += 1;
+                    ctx.eval();
+                    if let Err(p) = res {
+                        ctx.judge(false, &[], "panic while analysing a frame with a loaded signature database", || json!({"database": what, "signature": sig.to_string(), "panic": p, "frame_hex": hex(&b.frame)}));
+                        return;
+                    }
+                }
+            }
+        }
+    }
+    for (request, entries) in [(true, &db.http_request.entries), (false, &db.http_response.entries)] {
+        for (_label, sigs) in entries.iter() {
+            for sig in sigs {
+                idx += 1;
+                let v11 = !matches!(sig.version, huginn_net_db::http::Version::V10);
+                let (bytes, _m) = c13::build_http(sig, request, v11, idx % 2 == 0, false, idx % 3 == 0);
+                let ep = Endpoints::v4([10, 71, (idx >> 8) as u8, idx as u8], 2000 + (idx % 60000) as u16, [198, 51, 100, 71], 80);
+                let mut s = Script::new(ep, Link::Ethernet, r.u32(), r.u32());
+                s.handshake();
+                if request {
+                    s.c_data(&bytes);
+                } else {
+                    s.c_data(b"GET / HTTP/1.1\r\nHost: a\r\n\r\n");
+                    s.s_data(&bytes);
+                }
+                let Ok(mut http) = huginn_net_http::HuginnNetHttp::new(Some(db.clone()), 16) else { return };
+                for f in &s.frames {
+                    let res = guard(|| {
+                        let _ = http.verif_process_packet(f);
+                        let _ = uni.analyze_tcp(f);
+                    });
+                    fed += 1;
+                    ctx.eval();
+                    if let Err(p) = res {
+                        ctx.judge(false, &[], "panic while analysing a frame with a loaded signature database", || json!({"database": what, "signature": sig.to_string(), "panic": p, "frame_hex": hex(f)}));
+                        return;
+                    }
+                }
+            }
+        }
+    }
+    ctx.class_n("text/frames-analysed-with-a-loaded-database-variant", fed);
+}
+
 fn mutate_text(r: &mut Rng, seed: &str) -> String {
     let toks = ["*", ":", ",", "+", "-", "?", "%", "=", "[", "]", "mss*", "mtu*", "eol+", "999999999999999999999", "256", "65536", "4294967296", "\u{fffd}", "é", "\n", " ", "\t", "", "0", "ts", "nop", "[tcp:request]", "label = s:unix:X:y", "sig = "];
     let mut s: Vec<char> = seed.chars().collect();
@@ -842,6 +930,55 @@ pub fn run(ctx: &mut Ctx) {
     }
     ctx.bucket("frames/ip-header-length-fields");
 
+    // ---- W4t: timestamped segments on an advancing arrival clock (hook H1): a segment and a
+    // later one filed under the same tracker entry, 25 ms .. 10 min (and outside) apart, whose
+    // TSval values differ by every boundary amount of the 32-bit tick arithmetic
+    st.tag = "timestamp-pairs-on-advancing-clock";
+    {
+        let deltas: [u32; 16] = [0, 1, 4, 5, 6, 1000, 15_000, 15_001, 0x7fff_fffe, 0x7fff_ffff, 0x8000_0000, 0x8000_0001, 0xffff_fff0, 0xffff_fffa, 0xffff_fffb, 0xffff_ffff];
+        let gaps: [u64; 9] = [0, 1, 24, 25, 99, 100, 60_000, 600_000, 600_001];
+        let bases: [u32; 5] = [0, 1, 0x7fff_ffff, 0x8000_0000, 0xffff_ffff];
+        let mut now = scenario::T0 + 86_400_000;
+        let mut k = 0u64;
+        for (di, d) in deltas.iter().enumerate() {
+            for gap in gaps {
+                for (bi, base) in bases.iter().enumerate() {
+                    idx += 1;
+                    if !ctx.mine(idx) {
+                        continue;
+                    }
+                    k += 1;
+                    let variant = (di + bi + gap as usize) % 4;
+                    let ep = Endpoints::v4([10, 68, (k >> 8) as u8, k as u8], 30_000 + (k % 30_000) as u16, [10, 69, 0, 1], if variant == 3 { 8080 } else { 443 });
+                    let s = Script::new(ep, if k % 5 == 0 { Link::RawIp } else { Link::Ethernet }, 1000, 2000);
+                    let ts = |v: u32| {
+                        let mut o = pkt::opt_nop();
+                        o.extend(pkt::opt_nop());
+                        o.extend(pkt::opt_ts(v, 1));
+                        o
+                    };
+                    // 0: SYN and its retransmission; 1: SYN+ACK twice; 2: two client data segments; 3: two server data segments
+                    let (fc, fl) = match variant {
+                        0 => (true, flags::SYN),
+                        1 => (false, flags::SYN | flags::ACK),
+                        2 => (true, flags::ACK | flags::PSH),
+                        _ => (false, flags::ACK),
+                    };
+                    now += 700_000;
+                    ARRIVAL_MS.with(|a| a.set(now));
+                    hostile_frame(ctx, &mut st, &s.seg(fc, 1000, if fl & flags::ACK != 0 { 1 } else { 0 }, fl, ts(*base), &[]));
+                    ARRIVAL_MS.with(|a| a.set(now + gap));
+                    hostile_frame(ctx, &mut st, &s.seg(fc, 1000, if fl & flags::ACK != 0 { 1 } else { 0 }, fl, ts(base.wrapping_add(*d)), &[]));
+                    // and a third one, after the entry has been judged (good or bad)
+                    ARRIVAL_MS.with(|a| a.set(now + gap + 30_000));
+                    hostile_frame(ctx, &mut st, &s.seg(fc, 1000, if fl & flags::ACK != 0 { 1 } else { 0 }, fl, ts(base.wrapping_add(*d).wrapping_add(0x8000_0000)), &[]));
+                }
+            }
+        }
+        ARRIVAL_MS.with(|a| a.set(scenario::T0));
+    }
+    ctx.bucket("frames/timestamp-pairs");
+
     // ---- W4b: link-layer grid: every 16-bit value in the EtherType position (quick: the assigned
     // ones -- IPv4, IPv6, ARP, 802.1Q/802.1ad/QinQ tags, MPLS, PPPoE, LLDP, jumbo -- plus a
     // stride), and every first-word value a NULL/loopback reading looks at, on frames of every
@@ -1037,7 +1174,19 @@ pub fn run(ctx: &mut Ctx) {
             let i = r.usize(t.len());
             t[i] = mutate_text(&mut r, &t[i].clone());
         }
-        text_targets(ctx, &t.join("\n"));
+        let joined = t.join("\n");
+        text_targets(ctx, &joined);
+        if !ctx.miri() {
+            db_then_traffic(ctx, &mut r, &joined, "bundled text with 1..4 mutated lines");
+        }
+    }
+    // labels without signatures (placeholders; signatures commented out) in every signature section
+    if !ctx.miri() {
+        for _ in 0..ctx.scale(16, 160, 0) / ctx.nshards as u64 + 1 {
+            let (t, stripped) = crate::props::c13::strip_label_signatures(&fp, &mut r);
+            db_then_traffic(ctx, &mut r, &t, &format!("bundled text with the signatures of these labels commented out: {stripped:?}"));
+        }
+        ctx.bucket("text/database-with-signature-less-labels");
     }
     ctx.bucket("text/signature-database");
 
@@ -1193,6 +1342,7 @@ pub fn spec() -> PropSpec {
         shards: super::shards_16,
         rule: "hostile inputs for every public analysis entry point: every truncation and single-bit corruption (quick: every 7th bit) of every packet of the four bundled captures and of synthesised connections; every (kind,length,position) encoding of one TCP option; IHL x total-length x data-offset and IPv6 next-header x payload-length grids in three framings; seeded structural mutation of frames, TLS records, HTTP/1 and HTTP/2 streams (every truncation, length-field attacks, frame header grid) and of signature-database text (lines and whole files); frames go to the TCP, HTTP, TLS and unified analyzers with and without a filter, to the three worker pools and to analyze_pcap; streams go to the ClientHello parser and incremental reader, the HTTP processors and parsers, the Akamai extractors and the hash functions; text goes to Database::from_str and every FromStr of the vocabulary; monitors: panic hook (overflow checks on), child death, 20 s per-call watchdog, and a probe connection every 64 hostile frames whose canonical results must equal a fresh instance's; a bucket is an input family",
         assumptions: &[
+            "timestamp pairs arrive on an advancing virtual clock (hook H1); database text that loads is used for analysis (mutated whole-database texts; texts with signature-less labels)",
             "non-termination is restated as bounded progress: a call that exceeds 20 s makes the shard exit; the stashed input is re-run alone with a 60 s budget and only a second timeout is a violation (otherwise inconclusive)",
             "probe connections use the reserved blocks 203.0.113.0/24 and 198.18.0.0/24, which no hostile generator emits; an analyzer bank older than 4 s is replaced and its probe is inconclusive (TTL caches use real time)",
             "memory-safety reach is that of the executed paths; the thorough tier adds a Miri stage on reduced workloads",
